@@ -38,7 +38,8 @@ def layouts(T):
 
 
 def space_size(T, M):
-    return len(PART_OPTS) ** T * (2 ** T - 1) ** M
+    """number of cases in one block (one layout): every non-empty subscription per member"""
+    return (2 ** T - 1) ** M
 
 
 def space_blocks(max_t, max_m):
